@@ -128,6 +128,17 @@ def insert_bad(doc: dict, r, position: str, bad_key: str, n: int):
         x = r.choice(cands)
         comps[x].setdefault("properties", {})[f"zq_bad_{n}"] = bad
         touched.add(x)
+    elif position == "new_op_inline_bodies_then_bad_media":
+        # several request media types: the good ones bring inline classes of their own, one has a bad schema
+        good = {"type": "object", "properties": {"zq_inner": {"type": "object", "properties": {"deep": {"type": "string"}}}, "zq_kind": {"type": "string", "enum": ["zq_a", "zq_b"]}}}
+        good2 = {"type": "object", "properties": {"zq_form_field": {"type": "string"}, "zq_mode": {"type": "string", "enum": ["zq_m", "zq_n"]}}}
+        order = r.choice([("application/json", "application/x-www-form-urlencoded", "multipart/form-data"), ("application/x-www-form-urlencoded", "application/json", "multipart/form-data"), ("multipart/form-data", "application/json", "application/x-www-form-urlencoded")])
+        bad_at = r.choice([1, 2, 2])
+        content = {}
+        goods = [good, good2]
+        for i_, mt_ in enumerate(order):
+            content[mt_] = {"schema": bad if i_ == bad_at else docs.clone(goods.pop(0))}
+        d["paths"][f"/zq-bodies-{n}"] = {"post": {"operationId": f"zq_bodies_op_{n}", "requestBody": {"content": content}, "responses": {"200": {"description": "ok"}}}}
     elif position in ("new_op_param", "new_op_response", "new_op_body", "new_op_optional_path", "new_op_duplicate_params", "new_op_unparseable_body", "new_op_bad_status",
                       "new_op_schemaless_body", "new_op_malformed_media", "new_op_undeclared_placeholder", "new_op_param_not_in_path", "new_op_schemaless_param"):
         op = {"operationId": f"zq_bad_op_{n}", "responses": {"200": {"description": "ok"}}}
@@ -289,7 +300,7 @@ def main() -> int:
     ev.count("clean_bases", len(clean))
     positions = ["new_component", "new_model_property", "new_array_items", "new_union_member", "new_allof_parent", "new_additional", "existing_model_property", "depended_component", "depended_family", "existing_model_sharing_a_reference", "existing_model_sharing_a_reference",
                  "new_op_param", "new_op_response", "new_op_body", "new_op_optional_path", "new_op_duplicate_params", "new_op_unparseable_body", "new_op_bad_status",
-                 "existing_op_extra_response", "new_op_inline_then_bad_response", "shadowed_path_item_param",
+                 "existing_op_extra_response", "new_op_inline_then_bad_response", "shadowed_path_item_param", "new_op_inline_bodies_then_bad_media",
                  "new_op_schemaless_body", "new_op_malformed_media", "new_op_undeclared_placeholder", "new_op_param_not_in_path", "new_op_schemaless_param"]
     jobs, info = [], {}
     per_base = 8 if quick else 30
@@ -329,6 +340,8 @@ def main() -> int:
             vd.violation(f"generator_crashed:{descs[0]['position'] if len(descs) == 1 else 'multi'}:{res['exc'].get('type')}", f"{label}: inserting {descs} crashes the generator: {res['exc'].get('type')}: {res['exc'].get('msg', '')[:120]} at {res['exc'].get('site')}", dict(w, exc=res["exc"]))
             continue
         ev.count("pairs_compared")
+        for x_ in descs:
+            ev.count("position:" + x_["position"])
         pos0 = descs[0]["position"] if len(descs) == 1 else "multi"
         if not res.get("diags") and not all(x["position"] == "shadowed_path_item_param" for x in descs):
             vd.violation(f"no_diagnostic:{pos0}:{descs[0]['bad'] if pos0.startswith(('new_', 'existing', 'depended')) and not pos0.startswith('new_op_') or pos0 in ('new_op_param', 'new_op_response', 'new_op_body') else 'op'}", f"{label}: bad piece {descs} produced no diagnostic", w)
@@ -363,6 +376,9 @@ def main() -> int:
             for e in im.get("errors", []):
                 if e["exc"]["type"] not in ("SyntaxError", "ModuleNotFoundError"):
                     vd.violation(f"remaining_tree_broken:import:{pos0}", f"{label}: {e['module']}: {e['exc']['type']}: {e['exc']['msg']}", w)
+                elif e["exc"]["type"] == "ModuleNotFoundError" and f"pkg{bi}." in (e["exc"].get("msg") or ""):
+                    # a generated module refers to a sibling module that was not written
+                    vd.violation(f"remaining_tree_broken:missing_module:{pos0}", f"{label}: {e['module']}: {e['exc']['msg']}", w)
             from .c01 import removed_by_cascade
             removed = removed_by_cascade(res.get("diags") or [])
             for u in im.get("unresolved", []):
